@@ -29,6 +29,19 @@ Definition key_app (k : option keyfn) (x : Z) : Z := match k with None => x | So
 Inductive predfn := PT (t : testfn) (c : Z).
 Definition pred_app (p : predfn) (x : Z) : bool := match p with PT t c => test_app t c x end.
 
+(* Generalized booleans.  A Lisp test or predicate answers nil for false and ANY other object for true.
+   test_app / pred_app above say whether the relation holds; what the function written by the harness
+   actually returns when it holds is chosen per call: the symbol t, the number 7, one of its arguments, a
+   string, a fresh list, or (on strings) the mismatch index that string< and friends return. *)
+Inductive truth := TrT | TrNum | TrElt | TrStr | TrList | TrIdx.
+Inductive gbool := GNil | GT | GOther.
+Definition answer (s : truth) (holds : bool) : gbool :=
+  if holds then match s with TrT => GT | _ => GOther end else GNil.
+(* the language: everything but nil is true.  The Go code: `f.Call(...) != nil` at every call site *)
+Definition not_nil_g (g : gbool) : bool := match g with GNil => false | _ => true end.
+(* what a comparison with slip.True would decide instead *)
+Definition is_t_g (g : gbool) : bool := match g with GT => true | _ => false end.
+
 (* :test / :test-not / neither *)
 Inductive testarg := TDefault | TTest (t : testfn) | TTestNot (t : testfn).
 (* :count absent / nil / a fixnum *)
@@ -89,7 +102,8 @@ Record call := mkCall {
   c_op : binop;            (* reduce / two-sequence map *)
   c_init : option Z;       (* reduce :initial-value *)
   c_nseq : nat;            (* every some notany notevery map mapcar: 1 or 2 sequences *)
-  c_flag : bool            (* some: the predicate returns the element instead of t *)
+  c_flag : bool;           (* some: the predicate returns the element instead of t *)
+  c_truth : truth          (* what the tests / predicates of this call return for "true" *)
 }.
 
 Inductive errc := EType | EError | EFault | EUndefined | EOther.
